@@ -332,9 +332,12 @@ func chainReplay(args []string) {
 		for _, kt := range kts {
 			// h = 0: a chain that migrates from SHA-256 (the keys of the create operation) to SHA-512 (all later keys)
 			for _, h := range []int{256, 512, 0} {
-				for _, nonce := range []bool{false, true} {
+				// keys without nonce, keys with nonces, and ONE key material throughout whose instances differ in the nonce
+				// only (key 3 has none): such keys are different keys
+				for _, mode := range []int{0, 1, 2} {
+					nonce := mode != 0
 					col.nCases++
-					k := fmt.Sprintf("chain:%s:kt=%s:h=%d:nonce=%v", shape, kt, h, nonce)
+					k := fmt.Sprintf("chain:%s:kt=%s:h=%d:nonce=%v", shape, kt, h, []string{"false", "true", "same-material"}[mode])
 					col.kind(k)
 
 					fail := func(kind, detail string, exp, act interface{}) {
@@ -358,9 +361,17 @@ func chainReplay(args []string) {
 						alg = sha2_512 // delta hashes of the migrating chain
 					}
 
+					material := func(id int) *Key {
+						if mode == 2 {
+							id = 1
+						}
+
+						return pool.Get(kt, fmt.Sprintf("chain%d", id))
+					}
+
 					keyOf := func(id int) *jws.JWK {
-						j := cloneJWK(pool.Get(kt, fmt.Sprintf("chain%d", id)).JWK)
-						if nonce {
+						j := cloneJWK(material(id).JWK)
+						if nonce && !(mode == 2 && id == 3) {
 							j.Nonce = b64(seedBytes(seed, fmt.Sprintf("chain-nonce/%d", id), 16))
 						}
 
@@ -442,7 +453,7 @@ func chainReplay(args []string) {
 							continue
 						}
 
-						signer := pool.Get(kt, fmt.Sprintf("chain%d", o.Signer))
+						signer := material(o.Signer)
 						jwk := keyOf(o.Signer)
 						signed := map[string]interface{}{"anchorFrom": 1 + i, "anchorUntil": 3 + i}
 						req := map[string]interface{}{"type": o.Type, "didSuffix": testSuffix, "revealValue": refReveal(jwkMap(jwk), algOfKey(o.Signer))}
@@ -464,6 +475,47 @@ func chainReplay(args []string) {
 
 						req["signedData"] = compactJWS(map[string]interface{}{"alg": signer.Alg}, refJCSSimple(signed), signer)
 						reqs[i], _ = json.Marshal(req)
+
+						// the same request whose signed data carries members that this type of operation does not use (values
+						// that mean something elsewhere): if the parser takes it, it reports what it reports for the plain one
+						{
+							stray := map[string]interface{}{}
+							for name, v := range signed {
+								stray[name] = v
+							}
+
+							otherAlg := sha2_256 + sha2_512 - algOfKey(o.Signer)
+
+							for name, v := range map[string]interface{}{"revealValue": refReveal(jwkMap(jwk), otherAlg), "recoveryCommitment": commitOf(2*len(cl.Ops) + 2),
+								"updateCommitment": commitOf(2*len(cl.Ops) + 1), "deltaHash": refModelHash(delta, alg), "updateKey": jwkMap(keyOf(2*len(cl.Ops) + 2)),
+								"recoveryKey": jwkMap(keyOf(2*len(cl.Ops) + 2))} {
+								if _, used := stray[name]; !used {
+									stray[name] = v
+								}
+							}
+
+							sreq := map[string]interface{}{}
+							for name, v := range req {
+								sreq[name] = v
+							}
+
+							sreq["signedData"] = compactJWS(map[string]interface{}{"alg": signer.Alg}, refJCSSimple(stray), signer)
+							sb, _ := json.Marshal(sreq)
+
+							if _, perr := parser.ParseOperation("did:sidetree", sb, true); perr == nil {
+								c1, e1 := anchoredParser.GetCommitment(reqs[i])
+								c2, e2 := anchoredParser.GetCommitment(sb)
+								r1, e3 := anchoredParser.GetRevealValue(reqs[i])
+								r2, e4 := anchoredParser.GetRevealValue(sb)
+
+								if c1 != c2 || r1 != r2 || (e1 == nil) != (e2 == nil) || (e3 == nil) != (e4 == nil) {
+									fail("get-commitment", fmt.Sprintf("operation %d (%s): members of the signed data that this operation type does not use change what the parser reports", i+1, o.Type),
+										map[string]interface{}{"commitment": c1, "reveal": r1, "errors": fmt.Sprint(e1, e3)},
+										map[string]interface{}{"commitment": c2, "reveal": r2, "errors": fmt.Sprint(e2, e4)})
+									return
+								}
+							}
+						}
 
 						if i%2 == 1 {
 							// (with insignificant white space: an anchored operation is whatever bytes were anchored)
